@@ -474,7 +474,7 @@ PROPS = {
                        "of the raw->lp index maps (seed C11/1)",
     },
     "C12": {
-        "rules": [lambda prog, tier: verdict.run(prog),
+        "rules": [lambda prog, tier: verdict.run(prog), lambda prog, tier: verdict.run_subject(prog),
                   lambda prog, tier: localfield.run(prog, shared_eff(prog), scope=lambda f: f.unit.endswith("qsopt_ex/exact.c") or "fct_mpq" in f.unit or "basis_mpq" in f.unit, floor=8),
                   lambda prog, tier: vtypezero.run(prog),
                   lambda prog, tier: vstattype.run(prog),
@@ -737,7 +737,8 @@ _ADD = {
     "C12": {"explanation": " (R-VTYPEZERO) wherever the simplex chooses a non-basic status from the variable type (initial basis, singular-basis "
                            "repair) STAT_ZERO is reachable for a free variable only, so the basic solution of the returned basis takes every non-basic "
                            "variable at one of its bounds; (R-VSTATTYPE) a warm start reconciles the statuses of the supplied basis with the variable types before "
-                           "anything reads them. (R-LOCALFIELD) the verdict functions read no field of a local record that nothing wrote."},
+                           "anything reads them. (R-LOCALFIELD) the verdict functions read no field of a local record that nothing wrote. (R-SUBJECT) no exact verdict function re-points its basis parameter, so the optimality test and the rational check judge the record the "
+                           "caller supplied."},
     "C13": {"technique": "; control-dependence analysis of scratch-mark resets and dependency-counter updates on conditions over exact numbers; "
                          "re-point summaries of pointer fields (bottom-up) + path-sensitive staleness typestate of their local copies",
             "explanation": " (R-SCRATCH) in the sparse kernels no clearing of a scratch mark (lpinfo::iwork) and no update of a dependency counter "
